@@ -198,6 +198,10 @@ class PendingIf(_PendingCompoundStmt[If]):
                     # `not not test` makes sure the truth value is checked only once
                     test = UnaryOp(op=Not(), operand=UnaryOp(op=Not(), operand=test))
                 semi_if = BoolOp(op=And(), values=[test, body_or_true])
+                if isinstance(orelse, BoolOp) and isinstance(orelse.op, Or):
+                    # `a or (b or c)` is flattened as `a or b or c`
+                    # so a long elif chain is not a deeply nested expr
+                    return [BoolOp(op=Or(), values=[semi_if, *orelse.values])]
                 return [BoolOp(op=Or(), values=[semi_if, orelse])]
             else:
                 return [BoolOp(op=And(), values=[test, body])]
